@@ -573,7 +573,8 @@ def _is_m110(data):
 
 
 def run_direct(stmts, acks, status=None, late_hs=False, settle=0.02, do_disconnect=True, readings=False,
-               deadline=2.5, mode="serial", lose_at=0, slow=None, lose_idle_after=0, instant=(), idle_lines=None, fail_write_at=0):
+               deadline=2.5, mode="serial", lose_at=0, slow=None, lose_idle_after=0, instant=(), idle_lines=None, fail_write_at=0,
+               reconnect_before=()):
     """Drive the real SerialWriter/PrintrunWriter. stmts: list of bytes handed to write(); acks: the reply line
     (bytes) the device gives to each statement; status: {k: [lines pushed before the ack of statement k]};
     late_hs: the ok of the second start-up M110 is released only after the first write() began."""
@@ -659,7 +660,16 @@ def run_direct(stmts, acks, status=None, late_hs=False, settle=0.02, do_disconne
             time.sleep(settle)
         hub.log({"k": "connected", "res": str(results.get("connect"))})
         try:
+            chatty = False
             for k, stmt in enumerate(stmts, start=1):
+                if k in set(reconnect_before or ()):
+                    # connect() on a writer that is connected already (explicitly or through `with writer:`): nothing to do, and
+                    # nothing is to be said to the device (added after seed C16h); whatever it does say is answered late
+                    ct = threading.Thread(target=lambda: _guard(w.connect), daemon=True)
+                    ct.start()
+                    ct.join(0.3)
+                    time.sleep(settle)
+                    chatty = True
                 want = stmt.decode("utf-8", "replace").strip().encode("utf-8") + b"\n"
                 hub.log({"k": "call", "s": k, "text": list(want)})
 
@@ -682,6 +692,12 @@ def run_direct(stmts, acks, status=None, late_hs=False, settle=0.02, do_disconne
                         hub.log({"k": "stuck", "s": k, "tx": False})
                     do_disconnect = False
                     break
+                if chatty:
+                    # the device answers whatever else the host said, while the statement is (perhaps) waiting behind it
+                    t1 = time.monotonic()
+                    while time.monotonic() - t1 < deadline and ntx_stmt() < k:
+                        serve_handshake()
+                        time.sleep(0.002)
                 got_tx = await_(lambda: ntx_stmt() >= k, deadline)
                 if held:
                     hub.push(held.pop(0))["hs"] = True
@@ -738,10 +754,13 @@ def run_direct(stmts, acks, status=None, late_hs=False, settle=0.02, do_disconne
                 hub.log({"k": "disc_ret", "res": str(results.get("disc")), "alive": dt.is_alive()})
         finally:
             pw.POLLING_INTERVAL = old_poll
-            try:
-                w.disconnect(False)
-            except Exception:
-                pass
+            # clean-up only (never a verdict): a writer whose threads are wedged must not wedge the harness with them
+            with hub.lock:
+                hub.closed = True
+                hub.cv.notify_all()
+            ft = threading.Thread(target=lambda: _guard(lambda: w.disconnect(False)), daemon=True)
+            ft.start()
+            ft.join(2.0)
     ev = []
     for e in hub.events:
         if e["k"] in ("hs", "hsrel"):
